@@ -81,6 +81,13 @@ def run(ctx) -> None:
     r04_4(ctx)
     r04_5(ctx)
     r04_6(ctx)
+    # "a tee closes its source exactly when its last child is done": the children decide that by seeing the one
+    # shared list of buffers become empty — they must be handed that very list (C09's construction rule, shared)
+    from . import c09, objmodel
+    ctx.rule("R04.7", "tee: every child is handed the one shared list of buffers, so the last child to finish sees it empty and closes the source (R09.5, shared)")
+    P9 = c09._params(ctx.unit("itertools.tee_peer"))
+    if objmodel.tee_construction(ctx, "R04.7", P9) is None:
+        ctx.note("R04.7: the construction of tee is not evaluable over the object model (R09.5's statement-shape rule applies in C09)")
     ctx.floor("iterable_params", 20)
     ctx.floor("owning_handle_params", 3)
     ctx.floor("aclose_methods", 4)
